@@ -1191,7 +1191,7 @@ class JSONVisitor:
             todo_text = ["TODO"]
             if argument_text:
                 todo_text.extend([": ", argument_text])
-            TodoInfo("".join(todo_text), line)
+            self.diagnostics.append(TodoInfo("".join(todo_text), line))
             return None
 
         if name in {"figure", "image", "atf-image"}:
